@@ -819,7 +819,33 @@ fn gen_xlsx(rng: &mut Rng, s: &str, pfx: &str) -> XlsxCase {
         sst.extend(evs.iter().cloned());
         let v = if rng.chance(1, 8) { format!("0{i}") } else { i.to_string() };
         let vname = q(pfx, "v");
-        let kids = vec![st(&vname, &[]), tx(&v), en(&vname)];
+        let mut kids = vec![st(&vname, &[])];
+        if v.len() >= 2 && rng.chance(1, 2) {
+            // the digits of the index arrive in several events: text / CDATA / comment in between
+            let cut = 1 + rng.below(v.len() as u64 - 1) as usize;
+            match rng.below(4) {
+                0 => {
+                    kids.push(tx(&v[..cut]));
+                    kids.push(X::CData(v[cut..].to_string()));
+                }
+                1 => {
+                    kids.push(X::CData(v[..cut].to_string()));
+                    kids.push(tx(&v[cut..]));
+                }
+                2 => {
+                    kids.push(tx(&v[..cut]));
+                    kids.push(X::Comment);
+                    kids.push(tx(&v[cut..]));
+                }
+                _ => {
+                    kids.push(X::CData(v[..cut].to_string()));
+                    kids.push(X::CData(v[cut..].to_string()));
+                }
+            }
+        } else {
+            kids.push(tx(&v));
+        }
+        kids.push(en(&vname));
         let store = if label.starts_with("decoy") { "shared_decoy" } else { "shared" };
         let shape = label.split('.').next().unwrap_or("").to_string();
         let shape = if store == "shared_decoy" { label["decoy.".len()..].to_string() } else { shape };
@@ -1487,6 +1513,29 @@ fn xls_bytes(c: &XlsCase) -> (Vec<u8>, (u64, u64)) {
         s.cells.push(xlsw::XlsCell::new(i as u16, 0, v));
     }
     b.sheets.push(s);
+    // container: one file in four also carries a BIFF5-style `Book` stream (a copy of the sheet in which every
+    // character outside Latin-1 is `?`), before or after the `Workbook` stream in directory order: the texts
+    // must come from `Workbook`
+    let dual = c.seed % 8;
+    if dual < 2 {
+        let wb = b.workbook_stream(&mut rng);
+        let mut d = xlsw::XlsBook::new();
+        let mut ds = xlsw::XlsSheet::new("S");
+        for (i, cell) in c.cells.iter().enumerate() {
+            let lossy: String = cell.expect.chars().map(|ch| if (ch as u32) < 256 { ch } else { '?' }).take(200).collect();
+            ds.cells.push(xlsw::XlsCell::new(i as u16, 0, xlsw::CellV::Label(format!("book:{lossy}"), None)));
+        }
+        d.sheets.push(ds);
+        let decoy = d.workbook_stream(&mut rng);
+        let mut opts = verif_harness::cfbw::CfbOpts::random(&mut rng);
+        opts.dir_shuffle = false;
+        if wb.len() >= 4096 || decoy.len() >= 4096 {
+            opts.sector_size = 512;
+        }
+        let streams: Vec<(String, Vec<u8>)> =
+            if dual == 0 { vec![("Book".into(), decoy), ("Workbook".into(), wb)] } else { vec![("Workbook".into(), wb), ("Book".into(), decoy)] };
+        return (verif_harness::cfbw::write_cfb(&streams, &opts, &mut rng), sw);
+    }
     (b.to_bytes(&mut rng), sw)
 }
 
@@ -1676,10 +1725,8 @@ fn run_case_inner(case: &Case, drv: &mut Driver, rep: &mut Stats) -> Outcome {
                 } else if reqs[i].is_empty() {
                     // big table: the index lookup is done here on the model's table
                     rep.count("model.shared_lookup_outside_driver");
-                    let idx: usize = match &cell.kids[1] {
-                        X::Text(v, _) => v.parse().unwrap_or(0),
-                        _ => 0,
-                    };
+                    let digits: String = cell.kids.iter().map(|e| match e { X::Text(v, _) | X::CData(v) => v.as_str(), _ => "" }).collect();
+                    let idx: usize = digits.parse().unwrap_or(0);
                     table.get(idx).map(|h| format!("S:{h}")).unwrap_or("panic:index".into())
                 } else {
                     ri += 1;
@@ -2073,6 +2120,35 @@ fn corpus() -> Vec<Case> {
         }));
     }
     // D36 (xls): an empty LABEL / shared / formula string
+    // seeded C19-m13: a dual-format file (`Book` stream before / after `Workbook` in directory order)
+    for seed in [8u64, 16, 9] {
+        let s = "Ωμέγα 日本 text";
+        v.push(Case::Xls(XlsCase {
+            split: false,
+            seed,
+            sst: vec![s.into()],
+            cells: vec![
+                BinCell { kind: "isst".into(), isst: 0, units: vec![], expect: s.into(), label: "xls.shared.item.dual_stream".into() },
+                BinCell { kind: "st".into(), isst: 0, units: s.encode_utf16().collect(), expect: s.into(), label: "xls.inline.dual_stream".into() },
+                BinCell { kind: "fmla".into(), isst: 0, units: s.encode_utf16().collect(), expect: s.into(), label: "xls.formula_string.dual_stream".into() },
+            ],
+        }));
+    }
+    // seeded C19-m16: a shared-string index of two digits delivered in more than one event
+    {
+        let items: Vec<Vec<X>> = (0..12).map(|i| si("", t("", &format!("item{i}")))).collect();
+        let mk = |kids: Vec<X>, idx: usize| CellCase { t: Some("s".into()), kids, expect: Some(format!("item{idx}")), label: "xlsx.shared.plain.split_index".into() };
+        v.push(Case::Xlsx(XlsxCase {
+            pfx: String::new(),
+            sst: sst_of("", items),
+            cells: vec![
+                mk(vec![st("v", &[]), tx("1"), X::CData("1".into()), en("v")], 11),
+                mk(vec![st("v", &[]), tx("1"), X::Comment, tx("0"), en("v")], 10),
+                mk(vec![st("v", &[]), X::CData("1".into()), X::CData("1".into()), en("v")], 11),
+                mk(vec![st("v", &[]), tx("0"), X::Comment, tx("9"), en("v")], 9),
+            ],
+        }));
+    }
     // seeded C19-m9: a long multi-byte text followed by text:s (the space elements count whatever the length)
     {
         let cjk: String = "日本語テキスト".chars().cycle().take(25_000).collect();
